@@ -5,7 +5,7 @@
    hand model of gfapy/field/*.py, alignment/*.py, numeric_array.py, byte_array.py, lastpos.py.
    Floats and JSON go through an oracle record: their spelling is Python's and is not re-implemented. *)
 From Coq Require Import List String Ascii ZArith NArith Bool DecimalString DecimalZ.
-From GfaV Require Import Base.Py Base.Regex Gen.Tables Gen.Regexes Gen.K_cigar Gen.K_numarr Model.Align.
+From GfaV Require Import Base.Py Base.Regex Gen.Tables Gen.Regexes Gen.K_cigar Gen.K_numarr Gen.K_narange Model.Align.
 Import ListNotations.
 Open Scope list_scope.
 Open Scope string_scope.
@@ -164,7 +164,7 @@ Definition na_parse (s : string) : res (string * list string) :=
           | None => Err (Foreign KeyError)
           | Some (lo, hi) =>
               match rmapM (fun e => match py_int e with
-                                    | Some z => if Z.leb lo z && Z.ltb z hi then Ok z else Err (G EValue)
+                                    | Some z => if k_na_in_range z lo hi then Ok z else Err (G EValue)      (* the GENERATED range test *)
                                     | None => Err (G EValue) end) elems with
               | Err e => Err e
               | Ok _ => if py_fullmatch re_field_numeric_array_validate_encoded s then Ok (st, elems)
